@@ -98,6 +98,8 @@ static void check_case(vg::Src& s, vh::Ctx& c)
             next_round(sc, r, s, c);  // (announces itself and extends the description)
         }
         c.expect(r.e.size() == n, "erosion-size", "");
+        auto examine = [&](const std::string& tag)
+        {
         for (size_t i = 0; i < n; ++i)
         {
             double ei = r.e[i];
@@ -134,12 +136,18 @@ static void check_case(vg::Src& s, vh::Ctx& c)
             if (vg::biteq(ei, r.z[i] - (fl + DBL_MIN)))
                 ++clamped;
         }
-        // a second call on the same eroder is a fresh step (no state carried over)
+        };
+        examine(tag);
+        // the same step asked once more of the same eroder: a step like any other (whatever the
+        // eroder remembers of the previous call - nothing, in the unchanged library - the result
+        // has to satisfy the statement again; bit-for-bit repetition is not demanded: a solver
+        // that starts Newton from its previous solution would be legitimate)
         {
-            auto e2 = r.spl->erode(r.z, r.area, sc.dt);
-            for (size_t i = 0; i < n; ++i)
-                if (!vg::biteq(e2[i], r.e[i]))
-                    c.fail("erode-not-repeatable", "node " + std::to_string(i) + ": " + vg::fmt(r.e[i]) + " then " + vg::fmt(e2[i]));
+            auto first = r.e;
+            r.e = r.spl->erode(r.z, r.area, sc.dt);
+            c.expect(r.e.size() == n, "erosion-size", "");
+            examine(tag + "(same call repeated) ");
+            r.e = first;
         }
     }
     c.nontrivial = eroded > 0 && (lakes > 0 || clamped > 0);
